@@ -71,10 +71,19 @@ TABLE: list[ClassDef] = [
             FieldDef("fss", "frozenset[str]", "fsstr", "frozenset()"),
             FieldDef("ffs", "frozenset[frozenset[int]]", "fsfs", "frozenset()"),
             FieldDef("sk", "SKind", "senum", "SKind.ADD"),
+            FieldDef("by", "bytes", "bytes", 'b""'),
             FieldDef("nc", "str", "str", '""', compare=False),
             FieldDef("ni", "int", "int", "7", init=False),
             FieldDef("nn", "int", "int", "1", init=False, compare=False),
         ],
+    ),
+    # a class body with value-based __eq__ / __hash__ of its own (the library installs its own pair)
+    ClassDef(
+        "EqLeaf", "Base",
+        [FieldDef("v", "int", "int", "0")],
+        extra_body=("    def __eq__(self, other: object) -> bool:\n"
+                    "        return type(other) is type(self) and other.v == self.v\n\n"
+                    "    def __hash__(self) -> int:\n        return hash(self.v)\n"),
     ),
     # a class that validates in its own __post_init__ AFTER the base class has registered the node
     ClassDef(
